@@ -152,6 +152,10 @@ func callCmp(op string, a, b reflect.Value) (res bool, err error) {
 	return v.Bool(), nil
 }
 
+// orderUnknown: the pair is judged for the mutual consistency of the six operators only (an
+// integer beyond 2^53 next to a float: the engine may round, but all operators must round alike).
+const orderUnknown = 2
+
 // checkPair verifies every relation for the ordered pair (a, b) whose exact order is c (-1,0,1).
 func checkPair(a, b cmpOperand, c int, orderedFamily bool) []string {
 	var bad []string
@@ -171,7 +175,7 @@ func checkPair(a, b cmpOperand, c int, orderedFamily bool) []string {
 	if r["!="] == r["=="] {
 		bad = append(bad, fmt.Sprintf("%s vs %s: != is %v and == is %v", a.Desc, b.Desc, r["!="], r["=="]))
 	}
-	if r["=="] != (c == 0) {
+	if c != orderUnknown && r["=="] != (c == 0) {
 		bad = append(bad, fmt.Sprintf("%s == %s is %v although the values are %s", a.Desc, b.Desc, r["=="], map[bool]string{true: "equal", false: "different"}[c == 0]))
 	}
 	if orderedFamily {
@@ -190,7 +194,7 @@ func checkPair(a, b cmpOperand, c int, orderedFamily bool) []string {
 		if r[">="] != (r[">"] || r["=="]) {
 			bad = append(bad, fmt.Sprintf("%s vs %s: >= is %v but > is %v and == is %v", a.Desc, b.Desc, r[">="], r[">"], r["=="]))
 		}
-		if r["<"] != (c < 0) || r[">"] != (c > 0) {
+		if c != orderUnknown && (r["<"] != (c < 0) || r[">"] != (c > 0)) {
 			bad = append(bad, fmt.Sprintf("%s vs %s: the outcome (<:%v >:%v) does not follow the values (exact order %d)", a.Desc, b.Desc, r["<"], r[">"], c))
 		}
 		// mirror
@@ -230,6 +234,39 @@ func runC19Direct(c *Ctx) (pairs, crossKind int, bad []string, samples []interfa
 		}
 		if i == 0 {
 			samples = append(samples, map[string]string{"a": a.Desc, "b": nums[len(nums)-1].Desc, "operators": "< == > <= >= != and mirrors"})
+		}
+	}
+	// integers that float64 can not hold exactly, next to floats: consistency of the six
+	// operators and of the mirrored comparison only
+	{
+		var ints, floats []cmpOperand
+		for _, s := range []string{"9007199254740993", "-9007199254740993", "1699999999999999999", "-1699999999999999999",
+			"9223372036854775807", "-9223372036854775807", "4611686018427387905", "9007199254740995"} {
+			r, _ := new(big.Rat).SetString(s)
+			for _, k := range []reflect.Kind{reflect.Int64, reflect.Int, reflect.Uint64} {
+				if v, ok := mkNum(k, r); ok {
+					for _, w := range []string{"plain", "pointer", "interface"} {
+						ints = append(ints, cmpOperand{Desc: fmt.Sprintf("%s(%s)/%s", k, s, w), V: wrapValue(v, w), Rat: r, Fam: "num", Kind: k, Wrap: w})
+					}
+				}
+			}
+		}
+		for _, f := range []float64{9007199254740992, 9007199254740994, -9007199254740992, 1.7e18, -1.7e18, 9223372036854775808, -9223372036854775808,
+			4611686018427387904, 9007199254740996, 1.8446744073709552e19, 0.5, -1e30, 1e30} {
+			for _, w := range []string{"plain", "interface"} {
+				floats = append(floats, cmpOperand{Desc: fmt.Sprintf("float64(%v)/%s", f, w), V: wrapValue(reflect.ValueOf(f), w), Fam: "num", Kind: reflect.Float64, IsFloat: true, Wrap: w})
+			}
+		}
+		for _, a := range ints {
+			for _, b := range floats {
+				pairs += 2
+				crossKind += 2
+				bad = append(bad, checkPair(a, b, orderUnknown, true)...)
+				bad = append(bad, checkPair(b, a, orderUnknown, true)...)
+				if len(bad) > 50 {
+					return
+				}
+			}
 		}
 	}
 	// strings
@@ -402,6 +439,17 @@ func runC19Case(c *Ctx, idx int) *CaseResult {
 	dom := numDomain()
 	ka, kb := numKinds[r.Intn(len(numKinds))], numKinds[r.Intn(len(numKinds))]
 	ra, rb := dom[r.Intn(len(dom))], dom[r.Intn(len(dom))]
+	// every sixth case: the same wrapping on both sides, equal values half of the time
+	both := ""
+	if idx%6 == 0 {
+		both = []string{"pointer", "interface"}[r.Intn(2)]
+		if both == "pointer" {
+			ka, kb = reflect.Int64, reflect.Int64
+		}
+		if r.Intn(2) == 0 {
+			rb = ra
+		}
+	}
 	st := GenState(c.Rng(idx, 1))
 	f, g := st["F"].(*Fact), st["G"].(*Fact)
 	if !setField(f, ka, ra) || !setField(g, kb, rb) {
@@ -414,13 +462,32 @@ func runC19Case(c *Ctx, idx int) *CaseResult {
 		return cr
 	}
 	left, right := "F."+c19Fields[ka], "G."+c19Fields[kb]
-	// sometimes through the pointer / interface fields
-	switch r.Intn(4) {
+	// sometimes through the pointer / interface fields - on one side or on both (two pointers
+	// to equal values are different addresses; two interfaces may hold different kinds)
+	wl, wr := r.Intn(3), r.Intn(3)
+	switch both {
+	case "pointer":
+		wl, wr = 0, 0
+	case "interface":
+		wl, wr = 1, 1
+	}
+	switch wl {
 	case 0:
 		if ka == reflect.Int64 {
 			x := f.A
 			f.PN = &x
 			left = "F.PN"
+		}
+	case 1:
+		f.Any = reflect.ValueOf(f).Elem().FieldByName(c19Fields[ka]).Interface()
+		left = "F.Any"
+	}
+	switch wr {
+	case 0:
+		if kb == reflect.Int64 {
+			x := g.A
+			g.PN = &x
+			right = "G.PN"
 		}
 	case 1:
 		g.Any = reflect.ValueOf(g).Elem().FieldByName(c19Fields[kb]).Interface()
